@@ -292,52 +292,57 @@ def _returns_alias(ctx, f):
 
 
 def r1_sibling_entry_points(ctx, res):
-    a_lmf = ctx.repo.func('_add', '_add_lmf')
-    a_res = ctx.repo.func('_add', 'add_lexical_resource')
-    add = ctx.repo.func('_add', 'add')
-
-    def steps(f):
-        out = []
-        for n in sorted(walk_no_nested(f.node), key=lambda x: (getattr(x, 'lineno', 0), getattr(x, 'col_offset', 0))):
-            if isinstance(n, ast.If) and n.body and isinstance(n.body[-1], ast.Return):
-                t = norm(n.test)
-                if t.startswith('not '):
-                    out.append('empty-test')
-                elif t == 'all(skipmap.values())':
-                    out.append('all-skipped-return')
-            if isinstance(n, ast.Call):
-                fn = norm(n.func)
-                if fn == '_precheck':
-                    out.append('precheck')
-                elif fn == '_add_lexical_resource':
-                    out.append('import:' + ','.join(norm(a) for a in n.args))
-        return out
-    s1, s2 = steps(a_lmf), steps(a_res)
-    want = ['empty-test', 'precheck', 'all-skipped-return', 'import:resource,skipmap,progress']
-    for f, s in ((a_lmf, s1), (a_res, s2)):
-        key = f'entry-sequence:{f.qualname}'
-        res.inst(key, f.module.loc(f.node), f'{s}')
-        if s != want:
-            res.find(key, f.module.loc(f.node), f'{f.qualname} performs {s}; both ways of supplying a resource must do {want} '
-                                                f'(the sibling does {s2 if f is a_lmf else s1})')
-    for f in (add, a_res):
-        key = f'progress-closed:{f.qualname}'
-        tries = [n for n in walk_no_nested(f.node) if isinstance(n, ast.Try)]
-        ok = any(any('progress.close()' in norm(s) for s in t.finalbody) for t in tries)
-        res.inst(key, f.module.loc(f.node), 'progress.close() in finally')
-        if not ok:
-            res.find(key, f.module.loc(f.node), f'{f.qualname} does not close its progress handler in a finally block')
-    # the precheck argument: scan infos for files, the lexicons themselves for in-memory resources
+    """the two ways of supplying a resource do the same things in the same order (read off their effect summaries):
+    nothing-to-do test, pre-check of the lexicon headers, return when everything is skipped, import with that skip map"""
+    import re as _re
+    from ..speccheck import view
+    specs = {
+        '_add_lmf': ('lmf.scan_lexicons(source)', 'lmf.load(source, progress_handler)'),
+        'add_lexical_resource': ("resource['lexicons']", 'resource'),
+    }
+    seqs = {}
+    for fname, (heads, resource) in specs.items():
+        v = view(ctx, '_add', fname)
+        key = f'entry-sequence:{fname}'
+        pre = [r for r in v.rows if r[0] in ('eval', 'call') and r[1].startswith('_precheck(')]
+        imp = [r for r in v.rows if r[0] in ('eval', 'call') and r[1].startswith('_add_lexical_resource(')]
+        seq = []
+        if any(r[0] == 'return' and f'not {heads}' in r[2] for r in v.rows):
+            seq.append('empty-test')
+        pc_text = None
+        if len(pre) == 1 and pre[0][1].startswith(f'_precheck({heads}, ') and heads in pre[0][2]:
+            seq.append('precheck')
+            pc_text = pre[0][1]
+        if pc_text and any(r[0] == 'return' and f'all({pc_text}.values())' in r[2] for r in v.rows):
+            seq.append('all-skipped-return')
+        if pc_text and len(imp) == 1 and imp[0][1].startswith(f'_add_lexical_resource({resource}, {pc_text}, ') \
+                and f'not all({pc_text}.values())' in imp[0][2]:
+            seq.append('import')
+        seqs[fname] = seq
+        res.inst(key, v.loc(), f'{seq}')
+        want = ['empty-test', 'precheck', 'all-skipped-return', 'import']
+        if seq != want:
+            res.find(key, v.loc(), f'{fname} performs {seq}; both ways of supplying a resource must do {want}: test for an empty resource, '
+                                   f'_precheck of its lexicon headers, return when all are skipped, _add_lexical_resource(resource, that skip '
+                                   f'map, progress): {[r[1][:70] for r in pre + imp]}')
+    for fname in ('add', 'add_lexical_resource'):
+        v = view(ctx, '_add', fname)
+        key = f'progress-closed:{fname}'
+        news = [r for r in v.rows if r[0] == 'eval' and "(message='Database')" in r[1]]
+        closes = [r for r in v.rows if r[0] == 'call' and r[1].endswith('.close()') and 'finally' in r[3]]
+        res.inst(key, v.loc(), 'progress handler closed in a finally block')
+        if not news or not any('<exception propagates>' in r[2] for r in closes) or not all(r[1] == news[0][1] + '.close()' for r in closes):
+            res.find(key, v.loc(), f'{fname} does not close its progress handler in a finally block')
     key = 'precheck-input'
-    res.inst(key, a_lmf.module.loc(a_lmf.node), 'precheck over scan_lexicons(source) / resource["lexicons"]')
-    if '_precheck(infos, progress)' not in norm(a_lmf.node) or "_precheck(resource['lexicons'], progress)" not in norm(a_res.node):
-        res.find(key, a_lmf.module.loc(a_lmf.node), 'the two entry points no longer pre-check the lexicon headers of their resource')
+    res.inst(key, 'wn/_add.py', 'precheck over scan_lexicons(source) / resource["lexicons"] (part of the entry sequences)')
     # add() dispatches on the package type
+    av = view(ctx, '_add', 'add')
     key = 'add-dispatch'
-    s = Frag(add.node)
-    res.inst(key, add.module.loc(add.node), 'for package in iterpackages(source): wordnet -> _add_lmf, ili -> _add_ili')
-    if 'for package in iterpackages(source)' not in s or '_add_lmf(package.resource_file(), progress, progress_handler)' not in s:
-        res.find(key, add.module.loc(add.node), 'add() no longer adds every package found by iterpackages(source) through _add_lmf')
+    res.inst(key, av.loc(), 'for package in iterpackages(source): wordnet -> _add_lmf, ili -> _add_ili')
+    lm = [r for r in av.rows if r[0] in ('call', 'eval') and r[1].startswith('_add_lmf($1.resource_file(), ')]
+    if len(lm) != 1 or lm[0][3][:1] != ('for iterpackages(source)',) or '$1.type == _WORDNET' not in lm[0][2]:
+        res.find(key, av.loc(), f'add() no longer adds every wordnet package found by iterpackages(source) through _add_lmf: '
+                                f'{[(r[1][:50], sorted(r[2]), r[3]) for r in lm]}')
 
 
 def r2_skip_dominance(ctx, res):
@@ -389,13 +394,18 @@ def r4_files(ctx, res):
                 res.inst(key, f.module.loc(node), f'mode {mode!r}')
                 if mode is not None and any(c in str(mode) for c in 'wax+'):
                     res.find(key, f.module.loc(node), f'{f.qualname} opens a file with mode {mode!r} on the add route: the input may be modified')
-    gd = ctx.repo.func('project', '_get_decompressed')
+    from ..speccheck import view
+    gv = view(ctx, 'project', '_get_decompressed')
+    gd = gv.f
     key = 'decompress-temp-cleanup'
-    s = Frag(gd.node)
-    tries = [t for t in walk_no_nested(gd.node) if isinstance(t, ast.Try)]
-    ok = any(any(norm(x) == 'path.unlink()' for x in t.finalbody) for t in tries) and 'path = Path(tmp.name)' in s \
-        and 'tempfile.NamedTemporaryFile(' in s
+    tmp = "tempfile.NamedTemporaryFile(suffix='.xml', delete=False)"
+    unl = [r for r in gv.rows if r[0] == 'call' and r[1].endswith('.unlink()')]
+    ok = bool(unl) and all(r[1] == f'Path({tmp}.name).unlink()' and 'finally' in r[3] for r in unl) \
+        and any('<exception propagates>' in r[2] for r in unl) \
+        and any(r[0] == 'yield' and r[1] == f'Path({tmp}.name)' for r in gv.rows) \
+        and not any(r[0] == 'call' and ('source.unlink' in r[1] or r[1].startswith('os.remove(source') or r[1].startswith('os.unlink(source')) for r in gv.rows)
     res.inst(key, gd.module.loc(gd.node), 'temp copy unlinked in finally; source only read')
+    s = Frag(gd.node)
     if not ok:
         res.find(key, gd.module.loc(gd.node), '_get_decompressed no longer decompresses into a named temporary file that is unlinked in a '
                                               'finally block (the unlink must target the temp path, never the source)')
